@@ -5,6 +5,7 @@
 package mon
 
 import (
+	"os"
 	"sync/atomic"
 	"time"
 
@@ -24,7 +25,15 @@ var (
 var ParserCallback atomic.Pointer[func(ev int, lexer, aux uintptr)]
 var InterpCallback atomic.Pointer[func(ev int, lexer uintptr)]
 
+// Enabled is false when the worker was started with VERIF_NOHOOKS=1: the hooks
+// are then never installed (the race detector sees go.sh exactly as it is, with
+// no synchronisation added by a callback).
+var Enabled = os.Getenv("VERIF_NOHOOKS") == ""
+
 func init() {
+	if !Enabled {
+		return
+	}
 	parser.VerifHook = func(ev int, lexer, aux uintptr) {
 		switch ev {
 		case parser.EvStart:
